@@ -68,6 +68,9 @@ DESIGN_EXTRA = {
             ("MC_BalloonsReconf", "MC_BalloonsReconf_leak_balloonless.cfg", "Inv_StoppedHoldsNothing"),     # F-C09-5 shape
             ("MC_BalloonsReconf", "MC_BalloonsReconf_readmit_exited.cfg", "Inv_StoppedHoldsNothing"),       # F-C09-1 shape
             ("MC_BalloonsReconf", "MC_BalloonsReconf_reach.cfg", "Goal_BalloonlessAlive")],                 # reachability
+    # a failing CreateContainer/UpdateContainer pushes what it changed for other containers; the behaviour before the
+    # repair of F-C05-1/2 (return without draining) is refuted by TLC
+    "C05": [("MC_Pipeline", "MC_Pipeline_noflush.cfg", "Inv_FailedRequestFlushes")],
     # CPU classes at design level: a creation undone after newBalloon must return the CPUs with the idle class (F-C02-3)
     "C02": [("MC_Balloons", "MC_Balloons_undoclass.cfg", "Inv_CpuClass")],
     "C13": [("MC_BalloonsReconf", "MC_BalloonsReconf_none.cfg", None),
